@@ -57,6 +57,10 @@ class Gen:
         choices = ["npscalar"]
         if whole:
             choices += ["int", "int64"]
+            if all(0 <= v < 256 for v in vals):
+                choices += ["uint8"]
+            if all(0 <= v < 65536 for v in vals):
+                choices += ["uint16"]
         if f32:
             choices += ["float32"]
         op["vtype"] = self.rng.choice(choices)
